@@ -526,15 +526,21 @@ def scripted(big=False):
 
     # S19: a directory of more than 2048 entries (130 clusters, fragmented chain): listing and lookup far into it
     if big:
-        for gname in (['G16a', 'G32a'] if big == 'full' else ['G16a']):
+        for gname in (['G16a', 'G32a', 'G16d', 'G16c'] if big == 'full' else ['G16a', 'G16d']):
             v, upc, bounds = geom(gname, tree='T0', nfree=2, bounds=[0])
             base = 40
             chain = [base + 2 * i for i in range(65)] + [base + 2 * i + 1 for i in range(65)]      # 130 clusters, interleaved
+            if v['bpc'] > 1:
+                # (large clusters: 2048 slots in each of 128 blocks, 128 in each of 8: the directory still needs more than one)
+                need = (2072 + 16 * v['bpc'] - 1) // (16 * v['bpc'])
+                chain = [base + 2 * i for i in range(need)]
             ents = [f('B%04d.DAT' % i) for i in range(2070)]
             v['root'] = [d('BIGDIR', chain, ents), f('AFTER.TXT')]
             v['window'] = sorted(set(v['window'] + chain))
             if big != 'full':
-                ops = prologue() + [O('open_dir', d='d0', name='BIGDIR', as_='d1'), O('iterate', d='d1'), O('find', d='d1', name='B2069.DAT'), O('close_dir', d='d1'),
+                ops = prologue() + [O('open_dir', d='d0', name='BIGDIR', as_='d1'), O('iterate', d='d1'), O('find', d='d1', name='B2069.DAT'),
+                                    O('open_file', d='d1', name='B2069.DAT', mode='Create', as_='fx'), O('open_file', d='d1', name='B2068.DAT', mode='ReadOnly', as_='fy'), O('close_file', f='fy'),
+                                    O('mkdir', d='d1', name='B2067.DAT'), O('delete', d='d1', name='B2066.DAT'), O('close_dir', d='d1'),
                                     O('close_dir', d='d0'), O('close_volume', v='v0')]
                 add('S19-' + gname, (dict(vols=[v]), upc, bounds), ops, upc)
                 continue
@@ -726,6 +732,18 @@ def scripted(big=False):
             ops += [O('open_file', d='d1', name='E%02d.TXT' % i, mode='Create', as_='f0'), O('close_file', f='f0')]
         ops += [O('iterate', d='d1'), O('close_dir', d='d1')] + epilogue()
         add('S30-' + gname, img, ops, img[1], crashall=True)
+
+    # S31: a file that carries the volume label's name, behind the label (results only: the pair is not a well-formed directory for
+    # every reader): lookups by that name meet the label first, and nothing happens to either of them
+    for gname in ['G16a', 'G32a']:
+        v, upc, bounds = geom(gname, tree='T0', nfree=3)
+        v['root'] = [label('DATA'), f('DATA', [9], 1), f('OTHER.TXT', [10], 1)]
+        v['window'] = sorted(set(v['window'] + [9, 10]))
+        ops = prologue() + [O('find', d='d0', name='DATA'), O('open_file', d='d0', name='DATA', mode='ReadOnly', as_='f0'), O('open_file', d='d0', name='DATA', mode='Truncate', as_='f1'),
+                            O('delete', d='d0', name='DATA'), O('iterate', d='d0'), O('open_file', d='d0', name='F.BIN', mode='Create', as_='f2'), O('write', f='f2', n=upc + 1), O('close_file', f='f2'),
+                            O('delete', d='d0', name='DATA'), O('open_file', d='d0', name='F.BIN', mode='ReadOnly', as_='f3'), O('read', f='f3', n=upc + 1), O('close_file', f='f3'),
+                            O('iterate', d='d0'), O('label', v='v0')] + epilogue()
+        add('S31-' + gname, (dict(vols=[v]), upc, bounds), ops, upc, chk='listing')
 
     # S7: several volumes at once
     img = image_multi()
@@ -1012,6 +1030,14 @@ def lfn_histories(seed, quick):
             ops2 = [dict(o) for o in ops]
             fix_slot(dict(vols=[v2]), ops2)
             H.append(dict(id='LF%d' % k, src='lfn', image=dict(vols=[v2]), bounds=bounds2, limits=[4, 4, 1], ops=ops2, chk='listing'))
+    # a buffer that still holds part of a name when the listing starts, and a directory that starts with a complete run
+    for k, gname in enumerate(['G16a', 'G32a']):
+        v, upc, bounds = geom(gname, tree='T0', nfree=2, bounds=[0])
+        v['root'] = [lfnfor('LONGFI~1.TXT', 'long file name.txt'), f('LONGFI~1.TXT'), f('PLAIN.TXT'), lfnfor('SECOND~1.TXT', 'second long name.txt'), f('SECOND~1.TXT')]
+        ops = prologue() + [O('iterate_lfn', d='d0', buf=780, prepush=True), O('iterate_lfn', d='d0', buf=780), O('iterate_lfn', d='d0', buf=40, prepush=True),
+                            O('iterate_lfn', d='d0', buf=21, prepush=True), O('iterate', d='d0')] + epilogue()[:2]
+        fix_slot(dict(vols=[v]), ops)
+        H.append(dict(id='LP%d' % k, src='lfn', image=dict(vols=[v]), bounds=bounds, limits=[4, 4, 1], ops=ops, chk='listing'))
     # arbitrary directory bytes never crash a listing
     for k in range(6 if quick else 60):
         raw = []
